@@ -63,7 +63,7 @@ FlatRulesOnce(g, heads, flat) ==
           /\ ObsCount(heads, main[k].name) = ObsCount(flat, main[k].name)
           /\ ObsCount(heads, main[k].name) >= 1
      \* every predicate of the flattened program is there
-     /\ Cardinality(ObsNames(flat)) >= Len(FlatPreds(g))
+     /\ Cardinality(ObsNames(flat)) >= Len(ImFlattenText(g).preds)
 
 RulesOnce(g, heads, flat) ==
   /\ FlatRulesOnce(g, heads, flat)
